@@ -14,10 +14,15 @@ Chain ==
    \* h:      1   2   3   4   5   6
    time |-> <<10, 20, 60, 62, 64, 70>>,
    signed |-> << <<"n1", "n2">>, <<"n1", "n2">>, <<"n1", "n2", "n3">>, <<"n1", "n2">>, <<"n1", "n2">>, <<"n1", "n2">> >>,
-   A |-> 1, D |-> 5]
-\* item of height 1 (t=10): at H=2 fresh, at H=3 expired by both
-\* item of height 2 (t=20): at H=3 over the duration only, at H=4 both
-\* item of height 3 (t=60): at H=5 over the block limit only, at H=6 both
+   \* age limits: generous block limit at start-up, LOWERED by the application at 4, duration
+   \* limit RAISED at 6
+   \* h:          1                  2                  3                  4                  5                  6
+   params |-> << [A |-> 2, D |-> 5], [A |-> 2, D |-> 5], [A |-> 2, D |-> 5], [A |-> 1, D |-> 5], [A |-> 1, D |-> 5], [A |-> 1, D |-> 20] >>]
+\* item of height 1 (t=10): at H=2,3 over the duration only, at H=4 expired by both
+\* item of height 2 (t=20): at H=3 over the duration only; at H=4 expired by both under the
+\*                          limits in force (1,5) but not under the start-up limits (2,5)
+\* item of height 3 (t=60): at H=5 over the block limit only; at H=6 NOT expired under the
+\*                          limits in force (1,20) but expired under (2,5) and (1,5)
 \* light-client-attack items need the commits of their heights, which the block store has
 \* one block later: lunatic (common 3, conflicting 4) is verifiable at H=5 only,
 \* equivocation at 3 at H=4 and H=5
@@ -46,7 +51,9 @@ PoolBegin == {"d2genuine"}
 QuickDv  == {"d2genuine", "d3genuine"}
 QuickLca == {"l3genuine", "l3fewer"}
 QuickCtx == Chain @@ [dv |-> Restrict(DvFn, QuickDv \cup {"d2valsnext"}), lca |-> Restrict(LcaFn, QuickLca),
-                      pairs |-> Restrict(AllPairs, {"q2", "q3"})]
+                      pairs |-> Restrict(AllPairs, {"q3"})]
+\* the weakened specs are checked with both pairs (late votes of n1 at 2 need q2)
+WeakCtx == [QuickCtx EXCEPT !.pairs = Restrict(AllPairs, {"q2", "q3"})]
 QuickIds == QuickDv \cup QuickLca
 QuickBegin == {"d2genuine"}
 
@@ -54,7 +61,8 @@ QuickBegin == {"d2genuine"}
 GraphDv  == {"d2genuine", "d3genuine"}
 GraphLca == {"l3genuine", "l3fewer"}
 GraphCtx == Chain @@ [dv |-> Restrict(DvFn, GraphDv \cup {"d2valsnext"}), lca |-> Restrict(LcaFn, GraphLca),
-                      pairs |-> Restrict(AllPairs, {"q2", "q3"})]
+                      pairs |-> Restrict(AllPairs, {"q3"})]
+MidCtx == [GraphCtx EXCEPT !.pairs = Restrict(AllPairs, {"q2", "q3"})]
 GraphIds == GraphDv \cup GraphLca
 GraphBegin == {"d2genuine"}
 NoIds == {}
